@@ -17,7 +17,7 @@ ASSUMPTIONS = [
     'the assignment used by the step is the implementation\'s own (checked to be a nearest code under C01); the model recomputes the statistics from it',
 ]
 HEADER = '''From Coq Require Import ZArith QArith List Bool.
-From VQ Require Import Num Model.Vec Model.Core Model.CoreCheck.
+From VQ Require Import Num Model.Vec Model.Core Model.CoreCheck Model.Blocks.
 Import ListNotations.
 Open Scope Q_scope.
 '''
@@ -33,9 +33,39 @@ def coq_cfg(cb, cosine):
             f'{int(cb.kmeans_iters)}%nat false {qlit(Fraction(1, 10 ** 6))})')
 
 
+def _conditioned_tol(rec, h, cb, cosine, tolE):
+    """The cosine codebook is l2norm(embed_avg / smoothed count) with the floor eps = 1e-6 on the norm: when the running sum of a code CANCELS
+    (say 0.8 * (-0.5) + 0.2 * 2 = 0 exactly, float32 keeps a residue of 7e-9) the float32 rounding residue is amplified by 1 / max(|v|, 1e-6),
+    i.e. the map is ill-conditioned there and the exact model cannot be compared at a fixed tolerance.  The tolerance follows the conditioning:
+    tol + (float32 rounding of the running sum) / (count * max(|v|, eps)); for a well-conditioned row (|v| ~ 1) it is unchanged."""
+    if not cosine or tolE == 0:
+        return tolE
+    try:
+        avg, cs, before = rec.after['embed_avg'][h], rec.after['cluster_size'][h], rec.before['embed_avg'][h]
+        K, eps = len(cs), float(cb.eps)
+        tot = sum(cs)
+        valid = rec.mask[h] if rec.mask is not None else [True] * len(rec.xs[h])
+        dec = float(cb.decay)
+        worst = 0.0
+        for k, (row, c) in enumerate(zip(avg, cs)):
+            # float32 rounding only arises from the summands that actually enter this row (an untouched all-zero row is exact)
+            mag = dec * max([abs(float(v)) for v in before[k]] + [0.0]) + (1 - dec) * sum(
+                abs(float(v)) for x, i, ok in zip(rec.xs[h], rec.idx[h], valid) if ok and i == k for v in x)
+            sm = (float(c) + eps) / (tot + K * eps) * tot if tot > 0 else 0.0
+            sm = max(sm, 1e-30)
+            nv = sum((float(v) / sm) ** 2 for v in row) ** 0.5
+            worst = max(worst, (2.0 ** -21) * mag / sm / max(nv, 1e-6))
+        if worst > float(tolE) / 4:
+            return min(Fraction(2), tolE + Fraction(repr(worst)))
+    except Exception:
+        pass
+    return tolE
+
+
 def update_term(rec, h, cb, cosine, tolE, tolS, pool=None):
     valid = rec.mask[h] if rec.mask is not None else [True] * len(rec.xs[h])
     pool = rec.xs[h] if pool is None else pool
+    tolE = _conditioned_tol(rec, h, cb, cosine, tolE)
     return (f'update_check {qlit(tolE)} {qlit(tolS)} {qlit(tolE)} {coq_cfg(cb, cosine)} {coqbool(rec.training)} {coqbool(rec.freeze)} '
             f'{coqbool(rec.mask is not None)} {vqrec.coq_state(rec.before, h)} {qmat(rec.xs[h])} {blist(valid)} {natlist(rec.idx[h])} '
             f'{qmat(pool)} {vqrec.coq_state(rec.after, h)}')
@@ -132,6 +162,11 @@ def correspond(ctx, scale):
     # ResidualVQ: every layer's codebook follows the same law (per-layer), shared codebook: all layers accumulate, one normalisation
     rv_cases, rv_meta, n_rvq = residual_cases(ctx, rng, scale, dist, failures)
     evaluations += n_rvq
+    # run-length ("block") calls: the same token repeated n times; the model's block formula is proved equal to the model on the expanded
+    # batch for every n (Proofs/BlockProofs.v), so multiplicities far beyond what a list literal can carry are decided exactly
+    bl_cases, bl_meta, n_bl = block_cases(ctx, rng, scale, dist, failures)
+    evaluations += n_bl
+    rv_cases, rv_meta = rv_cases + bl_cases, rv_meta + bl_meta
     bad, broken = core.run_cases(ctx, 'c03', HEADER, cases + rv_cases, per_file=40)
     allmeta = meta + rv_meta
     for name, out in broken:
@@ -145,6 +180,78 @@ def correspond(ctx, scale):
             'rule': 'one case = one recorded codebook call (state before, tokens after projection, own indices, mask, state after) stepped through the model inside Coq; '
                     'non-trivial = a training step whose batch hits at least one and misses at least one code',
             'samples': samples, 'failures': failures, 'distribution': dist}
+
+
+def block_cases(ctx, rng, scale, dist, failures):
+    """one training call whose batch is a few tokens repeated many times (optionally with padded runs).  Quick: multiplicities up to 2^16; thorough:
+    additionally one call that sends 2^24 + 2^22 tokens to a single code (a float32 accumulation of ones stops at 2^24)."""
+    import torch
+    from vector_quantize_pytorch import VectorQuantize
+    cases, meta = [], []
+    n = 0
+    plans = []
+    for ci in range((6 if not ctx.thorough else 24) * scale):
+        plans.append(dict(cosine=ci % 3 == 2, d=rng.choice([1, 2]), K=rng.choice([2, 3, 4]), decay=[0.5, 0.75, 0.25, 0.0][ci % 4],
+                          mults=[rng.choice([1, 3, 2 ** rng.randrange(4, 17), 2 ** rng.randrange(4, 17) + 1]) for _ in range(rng.choice([2, 3, 5]))], masked=ci % 2 == 1))
+    if ctx.thorough:
+        plans.append(dict(cosine=False, d=2, K=2, decay=0.5, mults=[1000, 2 ** 24 + 2 ** 22], masked=False, massive=True))
+        plans.append(dict(cosine=True, d=2, K=2, decay=0.5, mults=[2 ** 24 + 2 ** 20, 700, 300], masked=True, massive=True))
+        # dim 1, single-threaded: torch's einsum takes a sequential float32 path and the vector SUM of a code saturates at 2^24 (known finding D25)
+        plans.append(dict(cosine=False, d=1, K=2, decay=0.5, mults=[1000, 2 ** 24 + 2 ** 22], masked=False, massive=True, kind='vq-block-massive-d1'))
+    for pi, pl in enumerate(plans):
+        d, K = pl['d'], pl['K']
+        kw = dict(dim=d, codebook_size=K, decay=pl['decay'], use_cosine_sim=pl['cosine'], threshold_ema_dead_code=0)
+        try:
+            vq = VectorQuantize(**kw)
+            cb = vq._codebook
+            vqrec.set_codebook_grid(vq, rng)
+            if pl.get('massive'):
+                with torch.no_grad():
+                    cb.embed.data.copy_(torch.stack([torch.ones(d), -torch.ones(d)])[None])
+                    cb.embed_avg.data.copy_(cb.embed.data * cb.cluster_size.data[..., None])
+            vq.train()
+            toks = vqrec.grid(rng, (len(pl['mults']), d))
+            if pl.get('massive'):
+                sg = [(-1.0 if bi % 2 == 0 else 1.0) if pl['mults'][0] < pl['mults'][1] else (1.0 if bi % 2 == 0 else -1.0) for bi in range(len(pl['mults']))]
+                toks = torch.tensor(sg)[:, None].expand(len(sg), d).contiguous()
+            valid = [not (pl['masked'] and bi % 2 == 1 and bi > 0) for bi in range(len(pl['mults']))]
+            x = torch.cat([toks[bi:bi + 1].expand(m, d) for bi, m in enumerate(pl['mults'])], dim=0)[None].contiguous()
+            mask = None
+            if pl['masked']:
+                mask = torch.cat([torch.full((m,), v) for m, v in zip(pl['mults'], valid)])[None]
+            before = vqrec.cb_state(cb)
+            with torch.no_grad():
+                _, idx, _ = vq(x, mask=mask) if mask is not None else vq(x)
+            after = vqrec.cb_state(cb)
+            xin = cb.transform_input(x) if hasattr(cb, 'transform_input') else x
+        except Exception as ex:
+            failures.append({'key': f'vq-block:exception:{type(ex).__name__}', 'what': f'VectorQuantize({kw}) on a run-length batch {pl["mults"]} raised {ex!r}', 'case': dict(kw=kw, mults=pl['mults'])})
+            continue
+        n += 1
+        dist['block_calls'] = dist.get('block_calls', 0) + 1
+        dist['block_max_multiplicity'] = max(dist.get('block_max_multiplicity', 0), max(pl['mults']))
+        blocks, off, uniform = [], 0, True
+        flat_idx = idx.reshape(-1)
+        for bi, m in enumerate(pl['mults']):
+            seg = flat_idx[off:off + m]
+            if valid[bi] and not bool((seg == seg[0]).all()):
+                uniform = False
+            tok = xin[0, off].detach().double().tolist()
+            # the index the call itself used for a padded run is not observable (-1 is returned); padded runs do not count whatever it was
+            blocks.append(f'(mkblock {qvec(tok)} {max(int(seg[0]), 0)}%nat {coqbool(valid[bi])} (inject_Z ({m})))')
+            off += m
+        if not uniform:
+            failures.append({'key': 'vq-block:identical-tokens-different-codes', 'what': f'VectorQuantize({kw}): identical tokens of one run received different indices', 'case': dict(kw=kw, mults=pl['mults'])})
+            continue
+        tolE = Fraction(1, 10 ** 4) if pl.get('massive') or pl['cosine'] else TOL_E
+        tolS = Fraction(1, 10 ** 5)      # float32 accumulation over many equal summands; a saturating or dropped-token count is off by percents
+        if pl.get('massive') and pl['cosine']:
+            # 2^24 + 2^20 copies of the non-dyadic value 1/sqrt(2): float32 partial sums above 2^22 round every addend (measured 5e-4 relative)
+            tolE = tolS = Fraction(1, 500)
+        cases.append(f'block_check {qlit(tolE)} {qlit(tolS)} {coq_cfg(cb, pl["cosine"])} {d}%nat {vqrec.coq_state(before, 0)} [{"; ".join(blocks)}] {vqrec.coq_state(after, 0)}')
+        meta.append(dict(kind=pl.get('kind', 'vq-block'), kw=kw, step=0, head=0, mode='train', mults=pl['mults'], masked=pl['masked']))
+        del x, idx, flat_idx
+    return cases, meta, n
 
 
 def residual_cases(ctx, rng, scale, dist, failures):
